@@ -14,10 +14,10 @@ import (
 )
 
 type c09Case struct {
-	S       vScenario `json:"s"` // book and log; malformed lines are vkRaw lines inside them
-	Silent  bool      `json:"silent"`
-	Period  []string  `json:"period,omitempty"` // global -b/-e flags: a malformed entry must be reported even in a day outside the period
-	Bin     bool      `json:"bin"`
+	S      vScenario `json:"s"` // book and log; malformed lines are vkRaw lines inside them
+	Silent bool      `json:"silent"`
+	Period []string  `json:"period,omitempty"` // global -b/-e flags: a malformed entry must be reported even in a day outside the period
+	Bin    bool      `json:"bin"`
 }
 
 type c09Planted struct {
